@@ -125,7 +125,7 @@ def ensure_makefile():
             raise RuntimeError('coq_makefile failed: ' + out)
 
 
-def coq_build(cluster, timeout=1500):
+def coq_build(cluster, timeout=3600):
     """Full .vo build of <cluster>/Properties.vo (and its dependencies); Properties.v is
     always recompiled so that its Print Assumptions output is fresh."""
     ensure_makefile()
@@ -183,7 +183,7 @@ def theorem_names(cluster):
 # ------------------------------------------------------------------------------------
 # model (extracted OCaml) and harness
 
-def build_model(cluster, timeout=600):
+def build_model(cluster, timeout=1800):
     """Extract <cluster>/Extract.v and compile it with the generic driver."""
     os.makedirs(OCAML_GEN, exist_ok=True)
     name = cluster.lower()
@@ -247,7 +247,7 @@ def fix_workspace():
         open(p, 'w').write(new)
 
 
-def build_harness(crate, profile='dev', timeout=3600):
+def build_harness(crate, profile='dev', timeout=7200):
     fix_workspace()
     lock_src = '/repo/Cargo.lock'
     lock_dst = os.path.join(ROOT, 'harness', 'Cargo.lock')
